@@ -464,6 +464,23 @@ template <class L> class LabeledFamily : public IAlgoFamily {
                             }
                             recon.push_back({s2, t, res});
                         }
+                    // the overloads that find the source themselves (findSourceVertex) and the
+                    // all-paths reconstruction, for every destination
+                    auto ap1 = algorithms::findAllVertexPredecessors(cg, s);
+                    for (VertexIndex t = 0; t < n; ++t) {
+                        json one, all;
+                        try {
+                            one = seqJson(algorithms::findPathToVertexFromPredecessors(cg, t, p1));
+                        } catch (const std::exception &) {
+                            one = json::array({-2});
+                        }
+                        try {
+                            all = pathsJson(algorithms::findMultiplePathsToVertexFromPredecessors(cg, t, ap1));
+                        } catch (const std::exception &) {
+                            all = json::array({-2});
+                        }
+                        recon.push_back({-3, t, one, all});
+                    }
                 }
                 rec["recon"] = recon;
             } catch (const ScanCapExceeded &) {
